@@ -160,8 +160,8 @@ Proof.
     intros H. inversion H. contradiction.
 Qed.
 
-Lemma exp_update_stale_safe st ev h ws hs x extra :
-  exp_update_stale st ev h ws = Some (hs, Some x, extra) ->
+Lemma exp_update_stale_safe st ev ws hs x extra :
+  exp_update_stale st ev ws = Some (hs, Some x, extra) ->
   RecordedEarly st ev (e_ws ev) (w_disk ws) /\ extra = [].
 Proof.
   unfold exp_update_stale.
@@ -175,8 +175,8 @@ Proof.
            end; now inversion H.
 Qed.
 
-Lemma exp_update_stale_extra st ev h ws hs upd extra :
-  exp_update_stale st ev h ws = Some (hs, upd, extra) -> extra = [].
+Lemma exp_update_stale_extra st ev ws hs upd extra :
+  exp_update_stale st ev ws = Some (hs, upd, extra) -> extra = [].
 Proof.
   unfold exp_update_stale. intros H.
   repeat match type of H with
@@ -212,29 +212,42 @@ Lemma expected_res_safe st ev hs upd extra :
         RecordedEarly st ev (e_ws ev) (w_disk ws) \/ absent_from_view st (e_ws ev) = true).
 Proof.
   unfold expected_res. intros H Hk.
-  destruct (s_heads st) as [|h [|h2 t]] eqn:Hh; try discriminate.
   destruct (lookupN (e_ws ev) (s_ws st)) as [ws|] eqn:Hw; [|discriminate].
+  assert (Present : forall h, s_heads st = [h] ->
+    match tree_of (s_ops st) h (e_ws ev) with
+    | Some _ => exp_present st ev h ws
+    | None => exp_absent st ev h ws
+    end = Some (hs, upd, extra) ->
+    (forall k y, In (k, y) extra -> lookupN k (s_ws st) = None)
+    /\ (forall x ws0, upd = Some x -> Some ws = Some ws0 ->
+          RecordedEarly st ev (e_ws ev) (w_disk ws0) \/ absent_from_view st (e_ws ev) = true)).
+  { intros h Hh H0. destruct (tree_of (s_ops st) h (e_ws ev)) eqn:T.
+    - split; [eapply exp_present_extra; eauto|].
+      intros x ws0 -> E. inversion E. subst ws0. left. eapply exp_present_safe; eauto.
+    - split; [eapply exp_absent_extra; eauto|].
+      intros x ws0 _ _. right. unfold absent_from_view. now rewrite Hh, T. }
   destruct (e_kind ev) eqn:K.
   - (* normal *)
-    destruct (tree_of (s_ops st) h (e_ws ev)) eqn:T.
-    + split; [eapply exp_present_extra; eauto|].
-      intros x ws0 -> E. inversion E. subst ws0. left. eapply exp_present_safe; eauto.
-    + split; [eapply exp_absent_extra; eauto|].
-      intros x ws0 _ _. right. unfold absent_from_view. now rewrite Hh, T.
+    destruct (s_heads st) as [|h [|h2 t]] eqn:Hh; try discriminate. eapply Present; eauto.
   - (* ignore working copy *)
+    destruct (s_heads st) as [|h [|h2 t]] eqn:Hh; try discriminate.
     destruct (chain_from h (length (s_ops st)) (e_ops ev)); [|discriminate].
     inversion H. subst. split; [intros k y []|]. intros x ws0 X. discriminate.
   - (* update-stale *)
     split.
     + apply exp_update_stale_extra in H. subst. intros k y [].
     + intros x ws0 -> E. inversion E. subst ws0. left.
-      now destruct (exp_update_stale_safe st ev h ws hs x extra H).
+      now destruct (exp_update_stale_safe st ev ws hs x extra H).
   - (* workspace add *)
-    destruct (tree_of (s_ops st) h (e_ws ev)) eqn:T.
-    + split; [eapply exp_present_extra; eauto|].
-      intros x ws0 -> E. inversion E. subst ws0. left. eapply exp_present_safe; eauto.
-    + split; [eapply exp_absent_extra; eauto|].
-      intros x ws0 _ _. right. unfold absent_from_view. now rewrite Hh, T.
+    destruct (s_heads st) as [|h [|h2 t]] eqn:Hh; try discriminate. eapply Present; eauto.
+  - (* at-op *)
+    destruct ((x <? length (s_ops st)) && chain_from x (length (s_ops st)) (e_ops ev)); [|discriminate].
+    inversion H. subst. split; [intros k y []|]. intros x0 ws0 X. discriminate.
+  - (* merge of operation heads *)
+    destruct (s_heads st) as [|h1 [|h2 t]]; try discriminate.
+    destruct (e_ops ev) as [|M [|M2 t2]]; try discriminate.
+    destruct (seteqn (o_par M) (h1 :: h2 :: t)); [|discriminate].
+    inversion H. subst. split; [intros k y []|]. intros x0 ws0 X. discriminate.
   - contradiction.
 Qed.
 
@@ -293,9 +306,9 @@ Proof.
   - unfold early_error in He. rewrite !andb_true_iff in He.
     destruct He as [[[[_ Hn] _] _] He]. apply wsl_eqb_spec in He.
     destruct (e_ops ev); [auto|discriminate].
-  - unfold expected_res in Hr. rewrite Hh, Hw in Hr.
+  - unfold expected_res in Hr. rewrite Hw in Hr.
     assert (X : exp_present st ev h ws = Some r).
-    { destruct Hk as [K|[nw K]]; rewrite K in Hr;
+    { destruct Hk as [K|[nw K]]; rewrite K, Hh in Hr;
         (destruct (tree_of (s_ops st) h (e_ws ev)); [assumption|congruence]). }
     unfold exp_present in X.
     assert (Y : (if N.eqb (e_status ev) 1 && is_nil (e_ops ev) then Some ([h], None, []) else None) = Some r).
@@ -396,7 +409,8 @@ Definition EventOk (strict : bool) (rec : list (nat * N * N)) (st : state) (ev :
                    | None => True
                    end in
     let snapshotted := w = e_ws ev /\ e_status ev = 0%N /\ absent_from_view st w = false
-                       /\ e_kind ev <> KIgnoreWc in
+                       /\ (e_kind ev = KNormal \/ e_kind ev = KUpdateStale
+                           \/ exists nw, e_kind ev = KWorkspaceAdd nw) in
     (changed \/ snapshotted) ->
     RecordedIn rec (length (s_ops st) + length (e_ops ev)) w (w_disk ws)
     \/ (strict = false /\ w = e_ws ev /\ absent_from_view st w = true).
@@ -432,7 +446,8 @@ Proof.
     destruct Hneed as [Hc|[-> [Hs [Ha Hi]]]].
     + destruct (lookupN w (e_ws_post ev)) as [ws'|]; [|discriminate].
       apply negb_false_iff, N.eqb_eq in F1. contradiction.
-    + rewrite N.eqb_refl, Hs, Ha in F2. cbn in F2. destruct (e_kind ev); try discriminate; contradiction.
+    + rewrite N.eqb_refl, Hs, Ha in F2. cbn in F2.
+      destruct Hi as [K|[K|[nw K]]]; rewrite K in F2; discriminate.
   - left. now apply recorded_spec.
   - right. rewrite !andb_true_iff in F. destruct F as [[F1 F2] F3].
     apply negb_true_iff in F1. apply N.eqb_eq in F2. auto.
@@ -456,8 +471,8 @@ Proof.
     exists cur. eapply snapshot_phase_recorded; eauto.
 Qed.
 
-Lemma exp_update_stale_recorded st ev h ws r :
-  exp_update_stale st ev h ws = Some r -> RecordedEarly st ev (e_ws ev) (w_disk ws).
+Lemma exp_update_stale_recorded st ev ws r :
+  exp_update_stale st ev ws = Some r -> RecordedEarly st ev (e_ws ev) (w_disk ws).
 Proof.
   unfold exp_update_stale.
   destruct (snapshot_phase (s_ops st) (w_op ws) (e_ws ev) (w_disk ws) (e_ops ev))
@@ -476,13 +491,16 @@ Proof.
   destruct (accept_inv st ev st' Hacc) as [_ [He|[r [Hr _]]]].
   - unfold early_error in He. rewrite Hst in He. discriminate.
   - unfold expected_res in Hr. rewrite Hw in Hr.
-    destruct (s_heads st) as [|h [|h2 t]] eqn:Hh; try discriminate.
-    unfold absent_from_view in Habs. rewrite Hh in Habs.
-    destruct (tree_of (s_ops st) h (e_ws ev)) eqn:T; [|discriminate].
     destruct Hk as [K|[K|[nw K]]]; rewrite K in Hr.
-    + eapply exp_present_recorded; eauto.
+    + destruct (s_heads st) as [|h [|h2 t]] eqn:Hh; try discriminate.
+      unfold absent_from_view in Habs. rewrite Hh in Habs.
+      destruct (tree_of (s_ops st) h (e_ws ev)) eqn:T; [|discriminate].
+      eapply exp_present_recorded; eauto.
     + eapply exp_update_stale_recorded; eauto.
-    + eapply exp_present_recorded; eauto.
+    + destruct (s_heads st) as [|h [|h2 t]] eqn:Hh; try discriminate.
+      unfold absent_from_view in Habs. rewrite Hh in Habs.
+      destruct (tree_of (s_ops st) h (e_ws ev)) eqn:T; [|discriminate].
+      eapply exp_present_recorded; eauto.
 Qed.
 
 Lemma recorded_early_bound st ev w d :
